@@ -7,8 +7,8 @@ Re-runs the property check against every kept seeded change (seeded/<id>/patch.d
 """
 import glob, json, os, re, subprocess, sys, time
 
-ROOT = "/verif"
-ids = sys.argv[1:] or sorted(os.path.basename(d[:-1]) for d in glob.glob(ROOT + "/seeded/*/"))
+ROOT = os.environ.get("VERIF_ROOT", "/verif")
+ids = sys.argv[1:] or sorted(os.path.basename(d[:-1]) for d in glob.glob("/verif/seeded/*/"))
 sp = ROOT + "/seeded/STATUS.json"
 status = json.load(open(sp)) if os.path.exists(sp) else {}
 head = subprocess.run("git -C /verif rev-parse --short HEAD", shell=True, stdout=subprocess.PIPE).stdout.decode().strip()
@@ -21,7 +21,7 @@ def sh(cmd, timeout):
 
 for s in ids:
     prop = s.split("-")[0]
-    patch = f"{ROOT}/seeded/{s}/patch.diff"
+    patch = f"/verif/seeded/{s}/patch.diff"
     t = time.time()
     out = sh(f"tools/try_seed.sh {prop} {patch} quick", 6000)
     tier = "quick"
@@ -30,6 +30,7 @@ for s in ids:
         if "VIOLATION" in out2:
             out, tier = out2, "thorough"
     caught = "VIOLATION" in out
+    applies = "patch does not apply" not in out and "repo not clean" not in out
     line = next((l for l in out.splitlines() if l.startswith("VIOLATION")), "")
     what = ""
     m = re.search(r"replay=(\S+)", line)
@@ -41,6 +42,6 @@ for s in ids:
             pass
     status[s] = {"caught": caught, "with_failing_input": caught and "no-failing-input-found" not in line,
                  "tier": tier if caught else "quick+thorough", "violation": line[:200], "what": what,
-                 "verif_commit": head, "wall_s": round(time.time() - t), "tail": "" if caught else out[-400:]}
+                 "applies": applies, "verif_commit": head, "wall_s": round(time.time() - t), "tail": "" if caught else out[-400:]}
     json.dump(status, open(sp, "w"), indent=1, ensure_ascii=False)
-    print(s, "caught" if caught else "MISSED", tier, status[s]["with_failing_input"], what[:100], flush=True)
+    print(s, "caught" if caught else ("MISSED" if applies else "PATCH-DOES-NOT-APPLY"), tier, status[s]["with_failing_input"], what[:100], flush=True)
